@@ -36,12 +36,12 @@ P = {
          "(induction over the operation list, shared tape): in every reachable world a completed client session that accepted a response carrying an honest "
          "server session's MAC has that session's transcript (the session consumed this client's request; context agrees; keys agree), a completed server "
          "session accepted exactly the MAC over its own transcript, equal session keys force equal nonces - or an HMAC/hash collision is exhibited; "
-         "exhaustive routing battery with the matched-conversation oracle",
+         "exhaustive routing battery with the matched-conversation oracle, incl. the matched session's request and response altered in one bit in transit (field edges, bits 0 and 7)",
          "rejection of responses whose MAC no honest session produced is unforgeability (C04 gap), covered by the batteries; concrete group laws are hypotheses"),
  "C08": ("theorems: same length/structure, same evaluation function, fake record = (tape masking key, zero envelope, fake key), fields from fresh tape ranges, "
          "no other finalization accepted; over histories: in every reachable world of the adversarial model any two login attempts (with or without a record) "
          "drew their random fields from disjoint ranges of the one tape (induction over the operation list; sampler-prefix law proved for the 20 suites); "
-         "battery incl. fake-state freshness and a failing generator entry point",
+         "battery incl. fake-state freshness, a failing generator entry point and degenerate restored setups (stand-in key = static key)",
          "client InvalidLogin on a fake response rests on a BadGuess event; validated by the battery"),
  "C09": ("byte-exact differential run model vs crate (a byte difference is itself the counterexample) + the nine RFC 9807 vectors of the repository replayed through "
          "both sides; theorems: labels regenerated from /repo/src equal the RFC's, and the model computes the RFC-shaped functions of Spec/Rfc.v (Expand-Label / "
